@@ -174,6 +174,8 @@ def run(ctx):
     bad = monitor(ctx, groups * reps)
     for b in bad[:5]:
         ctx.finding("crystal:%d" % b["group"], "get_is_chiral() wrong for a crystal of group %d" % b["group"], {"kind": "failing-input", "case": b})
+    import analyzer_hist
+    analyzer_hist.check(ctx, "C15", broken)
     if broken and not ctx.findings:
         ctx.finding("unproved", "proof/correspondence broken, no failing input found", {"kind": "broken-obligation", "broken": broken}, found_input=False)
     ctx.coverage["broken"] = [{"what": k, "info": i} for k, i in broken]
